@@ -127,6 +127,8 @@ type loaded struct {
 	prog     *ssa.Program
 	pkgs     map[string]*ssa.Package // by dir
 	skipped  map[string]string       // harness file -> error
+	rewrites    []string // environment rewrites applied (see genRewrites)
+	rewriteErrs []string
 	overlay  map[string]string       // virtual path -> real path
 	harness  []*Harness
 	loadTime time.Duration
@@ -155,6 +157,52 @@ func virtName(pkgDir, file string) string {
 
 func goEnv() []string {
 	return append(os.Environ(), "GOFLAGS=-mod=mod", "GOPROXY=off", "GOSUMDB=off", "GOTOOLCHAIN=local")
+}
+
+// A harness directory may hold rewrites.json: a list of {"file", "subst": [[old, new], ...], "why"}.
+// The named file of the package is read from /repo's working tree at every run, the textual
+// substitutions are applied (each pattern must occur) and the result replaces the file in the
+// overlay, for the symbolic run and for native replays alike. It is how environment calls
+// (file system, scheduling points) are turned into harness-provided stubs without touching /repo.
+type rewriteSpec struct {
+	File  string      `json:"file"`
+	Subst [][2]string `json:"subst"`
+	Why   string      `json:"why"`
+}
+
+func genRewrites(ld *loaded, pkgDir string) error {
+	b, err := os.ReadFile(filepath.Join(verifDir, "harness", pkgDir, "rewrites.json"))
+	if err != nil {
+		return nil
+	}
+	var specs []rewriteSpec
+	if err := json.Unmarshal(b, &specs); err != nil {
+		return fmt.Errorf("rewrites.json of %s: %v", pkgDir, err)
+	}
+	dir := filepath.Join(verifDir, "out", "gen", pkgDir)
+	os.MkdirAll(dir, 0o755)
+	for _, sp := range specs {
+		real := filepath.Join(repoDir, pkgDirToPath(pkgDir), sp.File)
+		src, err := os.ReadFile(real)
+		if err != nil {
+			return fmt.Errorf("rewrite %s: %v", real, err)
+		}
+		text := string(src)
+		for _, su := range sp.Subst {
+			if !strings.Contains(text, su[0]) {
+				ld.rewriteErrs = append(ld.rewriteErrs, fmt.Sprintf("%s: pattern %q no longer occurs in %s", pkgDir, su[0], sp.File))
+				continue
+			}
+			text = strings.ReplaceAll(text, su[0], su[1])
+		}
+		out := filepath.Join(dir, "rewritten_"+sp.File)
+		if err := os.WriteFile(out, []byte(text), 0o644); err != nil {
+			return err
+		}
+		ld.overlay[real] = out
+		ld.rewrites = append(ld.rewrites, fmt.Sprintf("%s/%s: %d substitutions (%s)", pkgDirToPath(pkgDir), sp.File, len(sp.Subst), sp.Why))
+	}
+	return nil
 }
 
 func genIntrinsics(pkgDir string) (string, error) {
@@ -193,6 +241,9 @@ func load(only map[string]bool) (*loaded, error) {
 		ld.overlay[filepath.Join(repoDir, pkgDirToPath(d), "zz_verif_intrinsics.go")] = ip
 		for _, f := range fs {
 			ld.overlay[virtName(d, f)] = f
+		}
+		if err := genRewrites(ld, d); err != nil {
+			return nil, err
 		}
 	}
 	sort.Strings(patterns)
@@ -457,6 +508,9 @@ func printResult(res *sym.HarnessResult, detail bool) {
 	}
 	for _, v := range res.Violations {
 		fmt.Printf("   VIOL %s (x%d) inputs=%v decisions=%v\n", v.Key, v.Count, v.Inputs, v.Decisions)
+		if strings.HasPrefix(v.Key, "panic:") {
+			fmt.Printf("        %s\n", v.Msg)
+		}
 		for _, l := range v.Log {
 			fmt.Printf("        log: %s\n", l)
 		}
@@ -591,6 +645,17 @@ func cmdCheck(args []string) int {
 	}
 	writeEvidence(prop, tier, seed, ld, hs, results, confirmed, mismatched, kconf, skippedNotes, time.Since(t0))
 	fmt.Printf("property %s tier %s: %d harnesses, %d violations, %d known findings seen, wall %.1fs\n", prop, tier.name, len(hs), len(confirmed), len(kconf), time.Since(t0).Seconds())
+	// a harness that no longer compiles against /repo, or an environment rewrite that no longer
+	// applies, means the check did not look at what it claims to: that is an error, not a pass
+	if exit == 0 && (len(skippedNotes) > 0 || len(ld.rewriteErrs) > 0) {
+		for _, e := range ld.rewriteErrs {
+			fmt.Println("CHECK-ERROR rewrite:", e)
+		}
+		for _, e := range skippedNotes {
+			fmt.Println("CHECK-ERROR harness does not compile against the current tree:", e)
+		}
+		return 2
+	}
 	return exit
 }
 
@@ -616,7 +681,7 @@ func writeReplayTest(ld *loaded, pkgDir string, dir string) (string, error) {
 	}
 	sort.Strings(names)
 	var sb strings.Builder
-	fmt.Fprintf(&sb, "package %s\n\nimport (\n\t\"encoding/json\"\n\t\"fmt\"\n\t\"os\"\n\t\"testing\"\n)\n\n", pkgName)
+	fmt.Fprintf(&sb, "package %s\n\nimport (\n\t\"encoding/json\"\n\t\"fmt\"\n\t\"os\"\n\t\"testing\"\n\t\"time\"\n)\n\n", pkgName)
 	sb.WriteString("var verifHarnesses = map[string]func(){\n")
 	for _, n := range names {
 		fmt.Fprintf(&sb, "\t%q: %s,\n", n, n)
@@ -649,19 +714,25 @@ func writeReplayTest(ld *loaded, pkgDir string, dir string) (string, error) {
 			cj, _ := json.Marshal(map[string]interface{}{"inputs": c.Inputs, "tier": c.Tier, "attempt": attempt, "case": i})
 			os.Setenv("VERIF_CASE", string(cj))
 			verifFailMsg = ""
-			outcome = func() (out string) {
+			done := make(chan string, 1)
+			go func() {
 				defer func() {
 					if r := recover(); r != nil {
 						if vs, ok := r.(interface{ VerifMsg() string }); ok {
-							out = "ASSERT " + vs.VerifMsg()
+							done <- "ASSERT " + vs.VerifMsg()
 							return
 						}
-						out = fmt.Sprintf("PANIC %v", r)
+						done <- fmt.Sprintf("PANIC %v", r)
 					}
 				}()
 				fn()
-				return "OK"
+				done <- "OK"
 			}()
+			select {
+			case outcome = <-done:
+			case <-time.After(30 * time.Second):
+				outcome = "DEADLOCK" // the harness did not return: its goroutine is left blocked
+			}
 		}
 		fmt.Printf("VERIF-REPLAY %d %s\n", i, outcome)
 	}
@@ -718,6 +789,9 @@ func nativeMatches(v *sym.Violation, outcome string) bool {
 	}
 	if strings.HasPrefix(v.Key, "panic:") {
 		return strings.HasPrefix(outcome, "PANIC ")
+	}
+	if strings.HasPrefix(v.Key, "deadlock:") {
+		return outcome == "DEADLOCK"
 	}
 	return false
 }
